@@ -86,6 +86,14 @@ def _safe_validate(vtype, val, name):
         return None
 
 
+def _as_value(err):
+    # From here on the error is a value. The traceback it collected while it
+    # was raised refers to the frames it passed through and so to the
+    # arguments, among them the array the error may be an item of: a cycle
+    # through a numpy array, which is never collected.
+    return err.with_traceback(None)
+
+
 def validate_args(func):
 
     @functools.wraps(func)
@@ -100,14 +108,14 @@ def validate_args(func):
                 bound.arguments[pname] = _validate(
                     sig.parameters[pname].annotation, value, pname)
             except xlerrors.ExcelError as err:
-                return err
+                return _as_value(err)
         # 2. Run the function to compute the result.
         try:
             res = func(*bound.args, **bound.kwargs)
         except xlerrors.ExcelError as err:
             # Never crash on Excel errors as we want to store them as the cell
             # value.
-            return err
+            return _as_value(err)
         # 3. Convert the result to an Excel type.
         return _validate(sig.return_annotation, res, 'return')
 
